@@ -4,7 +4,7 @@ import ast
 from ..absint import Explorer, UNKNOWN
 from ..astutil import norm, const, NO, compare, tail, names
 from ..index import AnalysisError, walk_own
-from .common import (site, key, calls_to, method_calls, nodes_with, guard_check, stores_to_name, cfg_attr, resp_var)
+from .common import (site, key, calls_to, method_calls, nodes_with, guard_check, stores_to_name, cfg_attr, resp_var, sync_accept_sites)
 from . import c03, c04
 from .c10 import _alias
 
@@ -140,7 +140,7 @@ def r5(ctx):
     for nm in ("run_for_one", "run_for_multiple"):
         f = ctx.fn(repo.func("gunicorn.workers.sync.SyncWorker." + nm))
         g = f.cfg
-        acc = [x for c in method_calls(f, "accept") if tail(c.func.value) == "self" for x in nodes_with(f, c)]
+        acc = [x for c in method_calls(f, "accept") if tail(c.func.value) == "self" for x in nodes_with(f, c)] + [sn for ff, sn, st in sync_accept_sites(repo) if ff is f]
         ctx.need(acc, "C18.R5: %s never accepts" % nm)
         alive_true = [(t, "true") for t in g.tests() if isinstance(t.ast, ast.Attribute) and t.ast.attr == "alive"]
         alive_false = [(t, "false") for t in g.tests() if isinstance(t.ast, ast.Attribute) and t.ast.attr == "alive"]
